@@ -71,15 +71,125 @@ fn ties_case(seed: u64, idx: u64) -> Out {
     out
 }
 
+/// predict == final activation of forward, predict_batch == predict, on networks with skip
+/// connections and one to three loop connections in ANY arrangement the library accepts
+/// (disjoint, nested, overlapping ranges; with and without input skips). No reference model:
+/// the three entry points are compared with each other, bit for bit.
+fn structures_case(seed: u64, idx: u64) -> Out {
+    let mut rng = Rng::stream(seed, "structures", idx);
+    let acts = [Act::Tanh, Act::Sigmoid, Act::Linear, Act::Leaky, Act::Relu];
+    let kind = (idx % 3) as usize;
+    let depth = rng.range(3, 7);
+    let (with_pool, end_dense) = (kind == 1 && rng.bool(), rng.bool());
+    let mut cfg = chain(&mut rng, kind, depth, &acts, with_pool, end_dense);
+    let mut out = Out::new(String::new());
+    let shapes = match cfg.shapes() {
+        Ok(s) => s,
+        Err(_) => {
+            out.nontrivial = false;
+            return out;
+        }
+    };
+    let nl = cfg.layers.len();
+    let mut loops: Vec<(usize, usize, usize, bool)> = Vec::new();
+    for _ in 0..rng.range(1, 3) {
+        let a = rng.range(0, nl - 1);
+        let b = rng.range(a, nl - 1);
+        if shapes[a].0 == shapes[b].1 && loops.iter().all(|l| l.0 != b) {
+            loops.push((b, a, rng.range(1, 3), rng.bool()));
+        }
+    }
+    let mut skips: Vec<(usize, usize)> = Vec::new();
+    for _ in 0..rng.range(0, 2) {
+        let a = rng.range(0, nl - 1);
+        let b = rng.range(a, nl - 1);
+        if shapes[a].0.count() == shapes[b].0.count() && skips.iter().all(|s| s.1 != b) {
+            skips.push((a, b));
+        }
+    }
+    cfg.loops = loops.clone();
+    cfg.skips = skips.clone();
+    cfg.loopacc = ACCS[((idx / 3) % 5) as usize];
+    cfg.skipacc = ACCS[((idx / 15) % 5) as usize];
+    out.key = cfg.describe();
+    let arrangement = {
+        let mut overlapping = false;
+        let mut nested = false;
+        for (i, l1) in loops.iter().enumerate() {
+            for l2 in loops.iter().skip(i + 1) {
+                let (a1, b1, a2, b2) = (l1.1, l1.0, l2.1, l2.0);
+                let disjoint = b1 < a2 || b2 < a1;
+                let inside = (a1 <= a2 && b2 <= b1) || (a2 <= a1 && b1 <= b2);
+                if !disjoint && inside {
+                    nested = true;
+                } else if !disjoint {
+                    overlapping = true;
+                }
+            }
+        }
+        format!("{} loops{}{}{}", loops.len(), if nested { " nested" } else { "" }, if overlapping { " overlapping" } else { "" }, if loops.iter().any(|l| l.3) { " inskips" } else { "" })
+    };
+    let params = gen_params(&cfg, &mut rng, -1.0, 1.0).unwrap();
+    let net = match build(&cfg, Some(&params)) {
+        Ok(n) => n,
+        Err(_) => {
+            out.nontrivial = false;
+            out.count("structures_rejected_by_the_library", 1);
+            return out;
+        }
+    };
+    let xs: Vec<Tensor> = (0..rng.range(1, 5)).map(|_| tensor_of(cfg.input, &random_input(&mut rng, cfg.input))).collect();
+    let xr: Vec<&Tensor> = xs.iter().collect();
+    let detail = || J::obj().set("network", J::s(&cfg.describe())).set("parameters", params_json(&params)).set("input", J::f32s(&flat(&xs[0])));
+    let p = guard(|| net.predict(&xs[0]));
+    let f = guard(|| net.forward(&xs[0]).1.last().unwrap().clone());
+    match (p, f) {
+        (Err(_), Err(_)) => {
+            out.nontrivial = false;
+            out.count("structures_on_which_forward_and_predict_both_panic", 1);
+            return out;
+        }
+        (Ok(_), Err(m)) | (Err(m), Ok(_)) => {
+            out.viol("aggregate:structures:one-of-predict-forward-panics", format!("{}: only one of predict / forward panics: {}", cfg.describe(), short(&m, 160)), detail());
+            return out;
+        }
+        (Ok(p), Ok(f)) => {
+            out.count("structured_networks_compared", 1);
+            out.cover("loop_arrangements", arrangement);
+            if shape_dims(&p.shape) != shape_dims(&f.shape) || !bits_eq(&flat(&p), &flat(&f)) {
+                let i = flat(&p).iter().zip(flat(&f).iter()).position(|(a, b)| a.to_bits() != b.to_bits()).unwrap_or(0);
+                out.viol(
+                    "aggregate:predict-vs-forward:structures",
+                    format!("{}: predict[{}] = {:e} but the final activation of forward is {:e}", cfg.describe(), i, flat(&p).get(i).cloned().unwrap_or(f32::NAN), flat(&f).get(i).cloned().unwrap_or(f32::NAN)),
+                    detail(),
+                );
+            }
+        }
+    }
+    let (pb, _) = in_cached_pool(*rng.pick(&[1usize, 2, 4]), || guard(|| net.predict_batch(&xr)));
+    match pb {
+        Err(m) => out.viol("aggregate:structures:predict_batch-panic", format!("{}: predict_batch panicked: {}", cfg.describe(), short(&m, 160)), detail()),
+        Ok(pb) => {
+            if pb.len() != xs.len() || pb.iter().zip(xs.iter()).any(|(b, x)| !bits_eq(&flat(b), &flat(&net.predict(x)))) {
+                out.viol("aggregate:predict_batch-vs-predict:structures", format!("{}: predict_batch differs from predict of each input in order", cfg.describe()), detail());
+            }
+        }
+    }
+    if idx < 3 {
+        out.sample = Some(detail());
+    }
+    out
+}
+
 impl Monitor for C12 {
     fn id(&self) -> &'static str {
         "C12"
     }
     fn gens(&self, tier: Tier) -> Vec<(&'static str, u64)> {
-        vec![("aggregate", tier.pick(8400, 168_000)), ("ties", tier.pick(600, 12_000))]
+        vec![("aggregate", tier.pick(8400, 168_000)), ("ties", tier.pick(600, 12_000)), ("structures", tier.pick(30_000, 600_000))]
     }
     fn rule(&self) -> &'static str {
-        "case i -> objective (i mod 7), data-set size from {1,2,3,40,63,64,65,127,128,129,200,257} (i/7 mod 12; the parallel chunk is 64), soft-max output or not, output width 1 or >1, tolerance from {f32::MIN_POSITIVE, 1e-9, log-uniform [1e-12,1e-6], log-uniform [1e-6,0.5]}, pool of 1..16 threads; random network ending in a dense layer (dense/conv/deconv/pool before it). Targets are generated from the network's own predictions so that every component is clearly inside (an exact hit or |t-p| <= tol/2) or clearly outside (>= 2 tol + 0.01) the tolerance and arg-max ties do not occur. Oracle: harness-side aggregation over the library's own predict() and objective loss(): mean loss (f64, bound n*eps), accuracy by the stated rule; predict_batch(xs)[i] must be bit-equal to predict(xs[i]) in input order (also for 0 inputs), predict(x) bit-equal to the last activation of forward(x). ties: soft-max outputs with exactly equal maxima (uniform distribution): the accuracy must equal the frequency of some single class among the targets, whatever the tie-breaking convention. Distinct = distinct (network, objective, size, tolerance) descriptors."
+        "case i -> objective (i mod 7), data-set size from {1,2,3,40,63,64,65,127,128,129,200,257} (i/7 mod 12; the parallel chunk is 64), soft-max output or not, output width 1 or >1, tolerance from {f32::MIN_POSITIVE, 1e-9, log-uniform [1e-12,1e-6], log-uniform [1e-6,0.5]}, pool of 1..16 threads; random network ending in a dense layer (dense/conv/deconv/pool before it). Targets are generated from the network's own predictions so that every component is clearly inside (an exact hit or |t-p| <= tol/2) or clearly outside (>= 2 tol + 0.01) the tolerance and arg-max ties do not occur. Oracle: harness-side aggregation over the library's own predict() and objective loss(): mean loss (f64, bound n*eps), accuracy by the stated rule; predict_batch(xs)[i] must be bit-equal to predict(xs[i]) in input order (also for 0 inputs), predict(x) bit-equal to the last activation of forward(x). ties: soft-max outputs with exactly equal maxima (uniform distribution): the accuracy must equal the frequency of some single class among the targets, whatever the tie-breaking convention. structures: chains of 3..8 layers (dense / spatial / mixed) with 0..2 skip connections and 1..3 loop connections in any arrangement the library accepts (disjoint, nested, overlapping ranges, with and without input skips), all 5 x 5 accumulation pairs: predict bit-equal to the final activation of forward, predict_batch bit-equal to predict of each input (configurations on which both forward and predict panic are counted, not judged). Distinct = distinct (network, objective, size, tolerance) descriptors."
     }
     fn assumptions(&self) -> Vec<&'static str> {
         vec!["boundary semantics (|t-p| == tol, arg-max ties, NaN losses) are unspecified and not generated", "per-sample predict() and loss() are trusted here (they are the subject of C02/C06)"]
@@ -87,6 +197,9 @@ impl Monitor for C12 {
     fn run(&self, gen: &str, seed: u64, idx: u64, _tier: Tier) -> Out {
         if gen == "ties" {
             return ties_case(seed, idx);
+        }
+        if gen == "structures" {
+            return structures_case(seed, idx);
         }
         let mut rng = Rng::stream(seed, gen, idx);
         let obj = OBJS[(idx % 7) as usize];
@@ -277,5 +390,7 @@ impl Monitor for C12 {
         agg.require(agg.set_size("sizes") == 12, "data-set sizes not all exercised".into());
         agg.require(agg.count("validate_calls") >= 400, format!("only {} validate calls judged", agg.count("validate_calls")));
         agg.require(agg.set_size("objective_x_accuracy_rule") >= 18, "objective x accuracy-rule combinations missing".into());
+        agg.require(agg.count("structured_networks_compared") >= 5000, "too few structured networks".into());
+        agg.require(agg.set_size("loop_arrangements") >= 10, format!("only {} loop arrangements", agg.set_size("loop_arrangements")));
     }
 }
